@@ -51,6 +51,6 @@ func (o *Operator) VerifStateDBKey(subjectKey []byte, namespace string, data []b
 func (o *Operator) VerifTimerDBKey(subjectKey []byte, t time.Time) []byte {
 	o.mu.RLock()
 	defer o.mu.RUnlock()
-	_, key := (&TimerStore{keySpace: o.keySpace}).encodeTimerKey(subjectKey, t)
+	_, key := o.timerRegistry.store.encodeTimerKey(subjectKey, t)
 	return key
 }
